@@ -509,6 +509,11 @@ class VCRuntime:
     def suspend(self, awaited, site):
         import inspect
 
+        ad = getattr(self._unit(), "await_adapter", None)
+        if ad is not None:
+            m = ad(awaited)
+            if m is not None:
+                awaited = m
         if inspect.iscoroutine(awaited) or inspect.isawaitable(awaited) and not isinstance(awaited, stubs.SAwait):
             return awaited
         return _Susp(site, awaited, self.fn_id)
